@@ -378,6 +378,9 @@ typedef struct {
   size_t                  tout_len;
   size_t                  tout_cap;
   int                     wr_event; /* a writability notification is due */
+  int                     ss_r;     /* interest last announced by sock_state_cb */
+  int                     ss_w;
+  int                     wr_short; /* the last asendto was short or returned EAGAIN */
 } vsock_t;
 
 typedef struct {
@@ -1490,6 +1493,7 @@ static ares_ssize_t v_sendto(ares_socket_t fd, const void *buffer,
     errno = EBADF;
     return -1;
   }
+  qstate_dump();
   a[0] = 0;
   if (address != NULL) {
     strcpy(a, " to=");
@@ -1516,6 +1520,7 @@ static ares_ssize_t v_sendto(ares_socket_t fd, const void *buffer,
   if (e) {
     if (e == EAGAIN || e == EWOULDBLOCK) {
       s->wr_event = 1;
+      s->wr_short = 1;
     }
     ev("SENDTO s%d len=%zu rc=-1 errno=%s%s", idx, length, errno_name(e), a);
     errno = e;
@@ -1532,12 +1537,14 @@ static ares_ssize_t v_sendto(ares_socket_t fd, const void *buffer,
   }
   ev("SENDTO s%d len=%zu rc=%zu%s", idx, length, n, a);
   if (s->type == SOCK_DGRAM) {
+    s->wr_short = 0;
     tx_record(s, idx, buffer, n);
     return (ares_ssize_t)n;
   }
   if (n < length) {
     s->wr_event = 1;
   }
+  s->wr_short = n < length;
   sb_init(&sb);
   sb_printf(&sb, "TCPBYTES s%d ", idx);
   sb_hex(&sb, buffer, n);
@@ -2097,6 +2104,8 @@ static void cb_sockstate(void *data, ares_socket_t fd, int readable,
     ev("SOCKSTATE fd?%d r=%d w=%d", (int)fd, readable, writable);
     return;
   }
+  G.socks[k].ss_r = readable;
+  G.socks[k].ss_w = writable;
   ev("SOCKSTATE s%ld r=%d w=%d%s", k, readable, writable,
      G.socks[k].closed ? " closed=1" : "");
 }
@@ -2206,7 +2215,9 @@ static int fld_u(const char *s, unsigned long max, unsigned long *out)
   return 1;
 }
 
-/* one RR: TYPE:rdata...[:ttl][@owner].  Returns 0 on bad spec. */
+static int parse_class(const char *s, long *out);
+
+/* one RR: TYPE:rdata...[:ttl][@owner][@@class].  Returns 0 on bad spec. */
 static int add_rr(ares_dns_record_t *rec, ares_dns_section_t sect,
                   const char *spec, const char *defowner, long ttlall)
 {
@@ -2217,6 +2228,7 @@ static int add_rr(ares_dns_record_t *rec, ares_dns_section_t sect,
   ares_dns_rec_type_t type;
   ares_dns_rr_t      *rr  = NULL;
   unsigned long       ttl = 300;
+  ares_dns_class_t    rrclass = ARES_CLASS_IN;
   int                 need; /* number of rdata fields */
   char                v6[128];
   unsigned long       u;
@@ -2226,6 +2238,19 @@ static int add_rr(ares_dns_record_t *rec, ares_dns_section_t sect,
     return 0;
   }
   strcpy(buf, spec);
+  {
+    /* optional "@@<class>" suffix (IN, CH, HS, NONE, ANY or a number); default IN */
+    char *cls = strstr(buf, "@@");
+    if (cls != NULL) {
+      long cv;
+      *cls  = 0;
+      cls  += 2;
+      if (!parse_class(cls, &cv)) {
+        return 0;
+      }
+      rrclass = (ares_dns_class_t)cv;
+    }
+  }
   owner = strrchr(buf, '@');
   if (owner != NULL) {
     *owner++ = 0;
@@ -2299,7 +2324,7 @@ static int add_rr(ares_dns_record_t *rec, ares_dns_section_t sect,
   if (owner == NULL) {
     owner = (char *)defowner;
   }
-  if (ares_dns_record_rr_add(&rr, rec, sect, owner, type, ARES_CLASS_IN,
+  if (ares_dns_record_rr_add(&rr, rec, sect, owner, type, rrclass,
                              (unsigned int)ttl) != ARES_SUCCESS) {
     return 0;
   }
@@ -3060,6 +3085,49 @@ static int op_proc(int legacy, int only_if_events)
   return nrd + nwr;
 }
 
+/* like op_proc(0, 1), but a socket is reported writable only when the library has announced
+ * write interest for it (sock_state_cb if registered, otherwise ares_fds) and it can take
+ * data (no connect pending); level triggered, as a poll() based application would do */
+static int op_procw(void)
+{
+  int   *rd  = xmalloc(sizeof(int) * (G.nsocks + 1));
+  int   *wr  = xmalloc(sizeof(int) * (G.nsocks + 1));
+  int    nrd = 0, nwr = 0;
+  size_t i;
+  fd_set fr;
+  fd_set fw;
+  FD_ZERO(&fr);
+  FD_ZERO(&fw);
+  if (!G.sockstatecb) {
+    ares_fds(G.channel, &fr, &fw);
+  }
+  for (i = 0; i < G.nsocks; i++) {
+    vsock_t *s = &G.socks[i];
+    int      want_w;
+    if (s->closed) {
+      continue;
+    }
+    if (s->type == SOCK_DGRAM) {
+      if (s->inq_head < s->inq_n) {
+        rd[nrd++] = (int)i;
+      }
+    } else if (s->tin_off < s->tin_len || s->eof || s->reset) {
+      rd[nrd++] = (int)i;
+    }
+    want_w = G.sockstatecb ? s->ss_w : FD_ISSET(FD_BASE + (int)i, &fw);
+    if (want_w && !(s->type == SOCK_STREAM && s->connect_pending && !s->tfo)) {
+      s->wr_event = 0;
+      wr[nwr++]   = (int)i;
+    }
+  }
+  if (nrd + nwr > 0) {
+    do_process(rd, nrd, wr, nwr, 0);
+  }
+  free(rd);
+  free(wr);
+  return nrd + nwr;
+}
+
 static void wait_reinit(void)
 {
   /* ares_reinit() re-reads the system configuration on a helper thread; wait
@@ -3788,9 +3856,11 @@ static int needs_channel(const char *op)
 {
   static const char *ops[] = { "cancel",  "destroy",  "reinit",  "setservers",
                                "setsortlist", "tmo",   "proc",    "proct",
-                               "procfd",  "procsel",  "flushwrites", "fds", "run",
+                               "procfd",  "procsel",  "flushwrites", "fds", "run", "runw",
                                "getsock", "qlen",     "servers", "opts",
                                "setlocalip4", "setlocalip6", "setlocaldev",
+                               "setserversl", "setserversp", "setserverscsv",
+                               "getservers", "dup",
                                NULL };
   int                i;
   for (i = 0; ops[i]; i++) {
@@ -3804,7 +3874,7 @@ static int needs_channel(const char *op)
 static int forbidden_in_cb(const char *op)
 {
   static const char *ops[] = { "destroy", "proc",        "proct", "procfd",
-                               "procsel", "flushwrites", "oncb",  "reinit", "run",
+                               "procsel", "flushwrites", "oncb",  "reinit", "run", "runw",
                                NULL };
   int                i;
   for (i = 0; ops[i]; i++) {
@@ -3897,6 +3967,120 @@ static void exec_op(const char *optext, int in_cb)
     srv_add_csv(namearg(argv[1]));
     rc = ares_set_servers_ports_csv(G.channel, namearg(argv[1]));
     ev("SETSERVERS rc=%d", rc);
+  } else if (strcmp(op, "setserversl") == 0 || strcmp(op, "setserversp") == 0) {
+    /* legacy ares_set_servers / ares_set_servers_ports: <addr[/udp/tcp],...> or - */
+    struct ares_addr_node      *ln = NULL, **lt = &ln;
+    struct ares_addr_port_node *pn = NULL, **pt = &pn;
+    int                         ports = strcmp(op, "setserversp") == 0;
+    int                         rc;
+    char                       *save2 = NULL, *tok;
+    char                       *copy;
+    if (argc != 2) {
+      ev("BADOP args: %s", optext);
+      goto done;
+    }
+    copy = xstrdup(namearg(argv[1]));
+    for (tok = strtok_r(copy, ",", &save2); tok; tok = strtok_r(NULL, ",", &save2)) {
+      char            addr[128];
+      int             udp = 0, tcp = 0;
+      struct in_addr  a4;
+      struct in6_addr a6;
+      int             fam;
+      if (sscanf(tok, "%127[^/]/%d/%d", addr, &udp, &tcp) < 1) {
+        continue;
+      }
+      if (inet_pton(AF_INET, addr, &a4) == 1) {
+        fam = AF_INET;
+      } else if (inet_pton(AF_INET6, addr, &a6) == 1) {
+        fam = AF_INET6;
+      } else {
+        continue;
+      }
+      srv_add_csv(addr);
+      if (ports) {
+        struct ares_addr_port_node *nd = xmalloc(sizeof(*nd));
+        memset(nd, 0, sizeof(*nd));
+        nd->family   = fam;
+        nd->udp_port = udp;
+        nd->tcp_port = tcp;
+        if (fam == AF_INET) {
+          memcpy(&nd->addr.addr4, &a4, sizeof(a4));
+        } else {
+          memcpy(&nd->addr.addr6, &a6, sizeof(a6));
+        }
+        *pt = nd;
+        pt  = &nd->next;
+      } else {
+        struct ares_addr_node *nd = xmalloc(sizeof(*nd));
+        memset(nd, 0, sizeof(*nd));
+        nd->family = fam;
+        if (fam == AF_INET) {
+          memcpy(&nd->addr.addr4, &a4, sizeof(a4));
+        } else {
+          memcpy(&nd->addr.addr6, &a6, sizeof(a6));
+        }
+        *lt = nd;
+        lt  = &nd->next;
+      }
+    }
+    free(copy);
+    rc = ports ? ares_set_servers_ports(G.channel, pn) : ares_set_servers(G.channel, ln);
+    ev("%s rc=%d", ports ? "SETSERVERSP" : "SETSERVERSL", rc);
+    while (ln) {
+      struct ares_addr_node *nx = ln->next;
+      free(ln);
+      ln = nx;
+    }
+    while (pn) {
+      struct ares_addr_port_node *nx = pn->next;
+      free(pn);
+      pn = nx;
+    }
+  } else if (strcmp(op, "setserverscsv") == 0) {
+    int rc;
+    if (argc != 2) {
+      ev("BADOP args: %s", optext);
+      goto done;
+    }
+    srv_add_csv(namearg(argv[1]));
+    rc = ares_set_servers_csv(G.channel, namearg(argv[1]));
+    ev("SETSERVERSCSV rc=%d", rc);
+  } else if (strcmp(op, "getservers") == 0) {
+    /* legacy ares_get_servers / ares_get_servers_ports */
+    struct ares_addr_node      *ln = NULL;
+    struct ares_addr_port_node *pn = NULL;
+    int                         rc = ares_get_servers(G.channel, &ln);
+    sb_t                        sb;
+    char                        ip[64];
+    sb_init(&sb);
+    sb_printf(&sb, "GETSERVERS rc=%d list=[", rc);
+    for (struct ares_addr_node *nd = ln; rc == ARES_SUCCESS && nd; nd = nd->next) {
+      inet_ntop(nd->family, &nd->addr, ip, sizeof(ip));
+      sb_printf(&sb, "%s%s", nd == ln ? "" : ",", ip);
+    }
+    sb_puts(&sb, "]");
+    ev_sb(&sb);
+    sb_free(&sb);
+    ares_free_data(ln);
+    rc = ares_get_servers_ports(G.channel, &pn);
+    sb_init(&sb);
+    sb_printf(&sb, "GETSERVERSP rc=%d list=[", rc);
+    for (struct ares_addr_port_node *nd = pn; rc == ARES_SUCCESS && nd; nd = nd->next) {
+      inet_ntop(nd->family, &nd->addr, ip, sizeof(ip));
+      sb_printf(&sb, "%s%s/%d/%d", nd == pn ? "" : ",", ip, nd->udp_port, nd->tcp_port);
+    }
+    sb_puts(&sb, "]");
+    ev_sb(&sb);
+    sb_free(&sb);
+    ares_free_data(pn);
+  } else if (strcmp(op, "dup") == 0) {
+    /* ares_dup, then destroy the copy */
+    ares_channel_t *copy = NULL;
+    int             rc   = ares_dup(&copy, G.channel);
+    ev("DUP rc=%d", rc);
+    if (rc == ARES_SUCCESS && copy != NULL) {
+      ares_destroy(copy);
+    }
   } else if (strcmp(op, "setsortlist") == 0) {
     int rc;
     if (argc != 2) {
@@ -3967,6 +4151,33 @@ static void exec_op(const char *optext, int in_cb)
       n++;
     }
     ev("RUN iterations=%ld%s", n, n == max ? " LIMIT" : "");
+  } else if (strcmp(op, "runw") == 0) {
+    long   max = 200;
+    long   n   = 0;
+    size_t i;
+    sb_t   sb;
+    int    first = 1;
+    if (argc > 2 || (argc == 2 && (!parse_long(argv[1], &max) || max < 0 ||
+                                   max > 100000))) {
+      ev("BADOP args: %s", optext);
+      goto done;
+    }
+    while (n < max && G.channel != NULL && op_procw() > 0) {
+      n++;
+    }
+    /* sockets whose last asendto was short / blocked and that were not flushed since
+     * (runw ends only when no watched socket is left, so these are not watched) */
+    sb_init(&sb);
+    sb_printf(&sb, "RUN iterations=%ld%s unwatched=[", n, n == max ? " LIMIT" : "");
+    for (i = 0; i < G.nsocks; i++) {
+      if (!G.socks[i].closed && G.socks[i].wr_short) {
+        sb_printf(&sb, "%ss%zu", first ? "" : ",", i);
+        first = 0;
+      }
+    }
+    sb_putc(&sb, ']');
+    ev_sb(&sb);
+    sb_free(&sb);
   } else if (strcmp(op, "proct") == 0) {
     do_process(NULL, 0, NULL, 0, 0);
   } else if (strcmp(op, "procfd") == 0) {
